@@ -18,6 +18,17 @@ logger = Log(__name__)
 logger.debug("loading module")
 from amoco.ui import render
 import operator
+from copy import copy as _shallow_copy
+
+
+def _sf_view(res, sf):
+    """returns res seen with sign flag sf, without altering res itself:
+    evaluation results can be objects shared with an environment or with other expressions."""
+    if res.sf != sf:
+        res = _shallow_copy(res)
+        res.sf = sf
+    return res
+
 
 
 # decorators:
@@ -949,13 +960,11 @@ class reg(exp):
             # operators adjust the sign flag of their operands in place:
             # don't let them alter the constant stored in env.
             r = cst(r.v, r.size)
-        elif r.sf != self.sf:
-            # the register's view of signedness applies to the value read,
-            # not to the expression stored in env (which may be shared):
-            from copy import copy
-            r = copy(r)
-        r.sf = self.sf
-        return r
+            r.sf = self.sf
+            return r
+        # the register's view of signedness applies to the value read,
+        # not to the expression stored in env (which may be shared):
+        return _sf_view(r, self.sf)
 
     def addr(self, env):
         return self
@@ -1165,8 +1174,7 @@ class comp(exp):
         res.restruct()
         # once simplified, it may be reduced to 1 part, so:
         if (0, res.size) in res.parts.keys():
-            res = res.parts[(0, res.size)]
-            res.sf = self.sf
+            res = _sf_view(res.parts[(0, res.size)], self.sf)
         return res
 
     def copy(self):
@@ -1355,8 +1363,7 @@ class mem(exp):
                 loc = env(loc)
             m[loc] = env(v)
         res = m[mem(a, self.size, endian=self.endian)]
-        res.sf = self.sf
-        return res
+        return _sf_view(res, self.sf)
 
     def simplify(self, **kargs):
         self.a.simplify(**kargs)
@@ -1558,8 +1565,7 @@ class slc(exp):
     def eval(self, env):
         n = self.x.eval(env)
         res = n[self.pos : self.pos + self.size]
-        res.sf = self.sf
-        return res
+        return _sf_view(res, self.sf)
 
     # slc of mem objects are simplified by adjusting the disp offset of
     # the sliced mem object.
@@ -1692,8 +1698,7 @@ class tst(exp):
             res = l
         else:
             res = r
-        res.sf = self.sf
-        return res
+        return _sf_view(res, self.sf)
 
     def simplify(self, **kargs):
         self.tst = self.tst.simplify(**kargs)
@@ -1765,8 +1770,7 @@ class op(exp):
         l = self.l.eval(env)
         r = self.r.eval(env)
         res = self.op(l, r)
-        res.sf = self.sf
-        return res
+        return _sf_view(res, self.sf)
 
     ##
 
@@ -1847,8 +1851,7 @@ class uop(exp):
         # single-operand :
         r = self.r.eval(env)
         res = self.op(r)
-        res.sf = self.sf
-        return res
+        return _sf_view(res, self.sf)
 
     @property
     def l(self):
